@@ -46,6 +46,90 @@ def run(ctx):
     res.require_instances("C11 obligations", len(res.obligations), 24)
 
 
+def _single_loop_free(rc: RuleCtx, fi):
+    """Single linkage without a loop: labels = [0] followed by the running count of the gaps that reach t,
+    np.cumsum(gap >= t) with gap[j] = |x[j+1] - x[j]| / (x_last - x_first).  L1: the layout (label 0 first, one running count
+    per further point); L2: the comparator; L3: the gap, element by element."""
+    from .. import elem
+    from ..intervals import single_atom
+    res = rc.res
+    mod = fi.module
+    ev = rc.new_eval()
+    pts = ev.point("points", True)
+    ev.len_map = {"points": sym("N")}
+    t = ev.symbol("t")
+    try:
+        out = ev.eval_function(fi, {"points": pts, "t": t})
+    except Unsupported as e:
+        raise AnalysisError(f"{fi.qualname}: not modelled: {e}")
+    val = out.value()
+    seen = {}
+    for v in [val] + [a for e in out.events for a in e.args]:
+        for g_, c_ in cases_of(v):
+            if isinstance(c_, Rat):
+                for a in c_.all_atoms():
+                    if a.kind == "fn" and a.name == "np.cumsum" and len(a.args) == 1:
+                        seen[a.skey] = a
+    if len(seen) != 1:
+        raise AnalysisError(f"{fi.qualname}: loop-free form without exactly one running count (np.cumsum) - shape not recognised")
+    cs = next(iter(seen.values()))
+    csr = Rat.from_atom(cs)
+    ba = single_atom(cs.args[0])
+    B = ev.bool_registry.get(ba.extra) if (ba is not None and ba.name == "bool") else None
+    if not (isinstance(B, G) and B.kind == "sign"):
+        raise AnalysisError(f"{fi.qualname}: the running count is not taken over one comparison - shape not recognised")
+    # ---- L1: layout ---------------------------------------------------------------------------------------------
+    layout = False
+    if isinstance(val, Rat) and val.is_zero():
+        # clusters = np.zeros(len, dtype=int); clusters[1:] = cumsum(..); return clusters
+        tail = [st for st in ast.walk(fi.node) if isinstance(st, ast.Assign) and len(st.targets) == 1 and isinstance(st.targets[0], ast.Subscript)
+                and isinstance(st.targets[0].slice, ast.Slice) and isinstance(st.targets[0].slice.lower, ast.Constant) and st.targets[0].slice.lower.value == 1
+                and st.targets[0].slice.upper is None and st.targets[0].slice.step is None and isinstance(st.targets[0].value, ast.Name)]
+        rets = [st for st in ast.walk(fi.node) if isinstance(st, ast.Return)]
+        stores = [e for e in out.events if e.kind == "store"]
+        if len(tail) == 1 and len(rets) == 1 and isinstance(rets[0].value, ast.Name) and rets[0].value.id == tail[0].targets[0].value.id \
+                and len(stores) == 1 and isinstance(stores[0].args[-1], Rat) and stores[0].args[-1].equals(csr) and stores[0].guard.kind == "true" \
+                and ev.prealloc.get((fi.qualname, rets[0].value.id), C(-1)).equals(sym("N")):
+            layout = True
+    elif isinstance(val, Rat):
+        a = single_atom(val)
+        if a is not None and a.name in ("np.concatenate", "np.hstack", "np.append") and val.equals(Rat.from_atom(a)):
+            parts = a.args
+            if len(parts) == 1 and single_atom(parts[0]) is not None and single_atom(parts[0]).name == "vec":
+                parts = single_atom(parts[0]).args
+            if len(parts) == 2 and parts[1].equals(csr):
+                h = single_atom(parts[0])
+                first = h.args[0] if (h is not None and h.name == "vec" and len(h.args) == 1) else parts[0]
+                layout = first.is_zero()
+    if layout and ev.length_of(B.a).equals(sym("N") - C(1)):
+        res.ok("L1", fi.qualname, "labels = [0] followed by the running count of the N-1 gap tests: one label per point, steps in {0, 1}")
+        res.ok("L1", f"{fi.qualname}:seed", "the first label is 0")
+    else:
+        res.violation("L1", mod, fi.name, fi.node, "the labels are not 0 followed by the running count of the N-1 gap tests", _short(val, 160),
+                      "np.concatenate(([0], np.cumsum(gap >= t)))", construct="single loop-free layout")
+    # ---- L2 / L3 -----------------------------------------------------------------------------------------------------
+    j = sym("j")
+    anf.declare_integer(j)
+    x = pts.items[0]
+    want = anf.f_abs(_at(x, j + C(1)) - _at(x, j)) / (_at(x, C(-1)) - _at(x, C(0)))
+    lhs = elem.simplify(elem.element(B.a, j))
+    # x is strictly increasing (the curve domain): x_last = x_first + R with R > 0, so |R| is R wherever the code normalises operands
+    # before subtracting them (|a/R - b/R| = |a - b| / R)
+    anf.NONNEG_SYMS.add("R!")
+    span = {single_atom(_at(x, C(-1))).skey: _at(x, C(0)) + sym("R!")}
+    lhs, want = anf.replace_atoms(lhs, span), anf.replace_atoms(want, span)
+    ge, gt = canon_sign(want - t, OPS[">="]), canon_sign(want - t, OPS[">"])
+    got = canon_sign(lhs, B.b)
+    if g_equiv(got, ge):
+        res.ok("L2", fi.qualname, "a new cluster starts exactly when gap / (x_last - x_first) >= t (ties included)")
+        res.ok("L3", fi.qualname, "gap[j] = |x[j+1] - x[j]| normalised by x_last - x_first")
+    elif g_equiv(got, gt):
+        res.violation("L2", mod, fi.name, fi.node, "a gap exactly equal to t does not start a new cluster (comparator > instead of >=)", str(got), str(ge), construct="single comparator")
+    else:
+        res.violation("L3", mod, fi.name, fi.node, "the quantity compared with t is not |x[j+1] - x[j]| / (x_last - x_first)", _short(got, 200), _short(ge, 200),
+                      construct="single gap")
+
+
 def _one(rc: RuleCtx, name: str):
     res = rc.res
     fi = rc.func(f"clustering.{name}")
@@ -54,6 +138,8 @@ def _one(rc: RuleCtx, name: str):
     pts = ev.point("points", True)
     ev.len_map = {"points": sym("N")}
     t = ev.symbol("t")
+    if name == "single_linkage" and not any(isinstance(st, (ast.For, ast.While)) for st in ast.walk(fi.node)):
+        return _single_loop_free(rc, fi)
     pre, loop, post = split_at_loop(fi)
     if not isinstance(loop, ast.For):
         raise AnalysisError(f"{fi.qualname}: the single pass is no longer a for loop")
